@@ -7,7 +7,8 @@ Import ListNotations.
 Local Open Scope Z_scope.
 
 Definition c48_witness_tail : pfcfg := PF 4 0 1003 2147483647 4 2 1 8 false.
-(* explicit chunk size 1, int32 [0,5), 7 pool threads, maxThreads 2, wait=true *)
+(* explicit chunk size 1, int32 [0,5), 7 pool threads, maxThreads 2, wait=true: the witness of the repaired finding
+   explicit-chunk-small-range-ignores-maxThreads *)
 Definition c48_witness_override : pfcfg := PF 4 0 5 1 7 2 1 1 true.
 
 Lemma C48_refuted_proof :
@@ -28,22 +29,37 @@ Proof.
     destruct Ha as [<-|[<-|[<-|[]]]]; destruct Hb as [<-|[<-|[<-|[]]]]; try reflexivity; exfalso; apply Hab; reflexivity.
 Qed.
 
-Lemma C48_refuted_override_proof :
-  exists c ring cl l,
-    pf_claims_ok c cl = true /\ antichain (pf_plan c ring cl) l /\ Z.of_nat (length l) > user_maxThreads c /\
-    c48_dom_override c = true /\ c = c48_witness_override /\ length l = 4%nat.
+(* adjustChunkSizing never raises maxThreads (all 8 index kinds) *)
+Lemma adj_le kn s e ch m st mi N w : fst (gen_adjustChunkSizing_of kn s e ch m st mi N w) <= m.
 Proof.
-  exists c48_witness_override, (-1), [(0,0,1);(1,1,2);(2,2,3);(3,3,4)],
-    [CALL (Task 0) 0 0 0 1; CALL (Task 1) 1 1 1 2; CALL (Task 2) 2 2 2 3; CALL CallerPre 3 3 3 4].
-  split; [vm_compute; reflexivity|]. split; [|split; [vm_compute; reflexivity|split; [vm_compute; reflexivity|split; reflexivity]]].
-  change (pf_plan c48_witness_override (-1) [(0,0,1);(1,1,2);(2,2,3);(3,3,4)])
-    with [CALL (Task 0) 0 0 0 1; CALL (Task 1) 1 1 1 2; CALL (Task 2) 2 2 2 3; CALL CallerPre 3 3 3 4].
-  split; [|split].
-  - repeat constructor; simpl; intuition discriminate.
-  - apply incl_refl.
-  - intros a b Ha Hb Hab. simpl in Ha, Hb.
-    destruct Ha as [<-|[<-|[<-|[<-|[]]]]]; destruct Hb as [<-|[<-|[<-|[<-|[]]]]]; try reflexivity; exfalso; apply Hab; reflexivity.
+  destruct kn as [|[|[|[|[|[|[|kn]]]]]]];
+    cbv [gen_adjustChunkSizing_of
+         gen_adjustChunkSizing_i8 gen_adjustChunkSizing_u8 gen_adjustChunkSizing_i16 gen_adjustChunkSizing_u16
+         gen_adjustChunkSizing_i32 gen_adjustChunkSizing_u32 gen_adjustChunkSizing_i64 gen_adjustChunkSizing_u64];
+    destr_ifs; cbn [fst snd]; try lia;
+    match goal with H : (_ <? _) = true |- _ => apply Z.ltb_lt in H; lia end.
 Qed.
+
+Lemma pf_decide_le c : 2 <= path_code (d_path (pf_decide c)) -> d_maxThreads (pf_decide c) <= user_maxThreads c.
+Proof.
+  unfold user_maxThreads, pf_decide.
+  destruct (gen_range_empty_of (pf_kn c) (pf_s c) (pf_e c)); [simpl; lia|].
+  destruct (gen_computeGranularity_of (pf_kn c) (pf_s c) (pf_e c) (pf_chunk c) (pf_gran c)) as [[g te] ht].
+  destruct (gen_range_empty_of (pf_kn c) (pf_s c) te || (pf_N c =? 0)); [simpl; lia|].
+  pose proof (adj_le (pf_kn c) (pf_s c) te (pf_chunk c) (Z.max (wrap_s 32 (pf_maxThreads c)) 1)
+                (gen_range_isStatic_of (pf_kn c) (pf_chunk c)) (Z.max 1 (pf_minItems c)) (pf_N c) (pf_wait c)) as A.
+  destruct (gen_adjustChunkSizing_of (pf_kn c) (pf_s c) te (pf_chunk c) (Z.max (wrap_s 32 (pf_maxThreads c)) 1)
+              (gen_range_isStatic_of (pf_kn c) (pf_chunk c)) (Z.max 1 (pf_minItems c)) (pf_N c) (pf_wait c)) as [m' st'].
+  simpl in A.
+  destruct (m' <? 2); [simpl; lia|].
+  destruct st'; [|destruct (pf_chunk c =? 0)]; simpl; intros _; lia.
+Qed.
+
+(* regression for the repaired finding: the former witness now keeps the caller's limit (1 task + the caller) *)
+Lemma C48_override_regression_proof :
+  d_maxThreads (pf_decide c48_witness_override) = 2 /\ pf_numToLaunch c48_witness_override (pf_decide c48_witness_override) = 1 /\
+  pf_width c48_witness_override = 2 /\ pf_states_needed c48_witness_override = 2 /\ c48_dom c48_witness_override = false.
+Proof. vm_compute. repeat split; reflexivity. Qed.
 
 Lemma worker_ids_length T wait : Z.of_nat (length (worker_ids T wait)) = Z.max 1 T + b2z wait.
 Proof.
@@ -62,9 +78,9 @@ Lemma C48_holds_except_proof : forall c ring cl,
 Proof.
   intros c ring cl Hok Hdom l Hl.
   pose proof (user_maxThreads_range c) as U.
-  unfold c48_dom in Hdom. apply orb_false_iff in Hdom. destruct Hdom as (Dt & Do).
-  unfold c48_dom_tail, dom_static_nowait_tail, c48_dom_override, is_static_path, is_worker_path in Dt, Do.
-  pose proof (pf_decide_par c) as Q. cbv zeta in Q.
+  unfold c48_dom in Hdom. rename Hdom into Dt.
+  unfold c48_dom_tail, dom_static_nowait_tail, is_static_path in Dt.
+  pose proof (pf_decide_par c) as Q. cbv zeta in Q. pose proof (pf_decide_le c) as Do.
   unfold pf_plan, pf_claims_ok in *.
   destruct (d_path (pf_decide c)) eqn:P; simpl in Dt, Do, Q.
   - destruct Hl as (_ & Hinc & _). destruct l as [|a l]; [simpl; lia|]. exfalso. apply (Hinc a). left. reflexivity.
@@ -80,14 +96,14 @@ Proof.
     + lia.
     + destruct (d_hasTail (pf_decide c)); simpl in *; [|lia].
       apply Z.ltb_ge in Dt. lia.
-  - destruct (Q ltac:(lia) ltac:(lia)) as (M & _). apply Z.ltb_ge in Do.
+  - destruct (Q ltac:(lia) ltac:(lia)) as (M & _). specialize (Do ltac:(lia)).
     pose proof (antichain_bound _ (worker_ids (pf_numToLaunch c (pf_decide c)) (pf_wait c))
                   (fun a => worker_plan_chain_ids c (pf_decide c) cl a Hok)
                   (fun a b => worker_plan_chain_cmp c (pf_decide c) cl a b Hok) l Hl) as B.
     apply Nat2Z.inj_le in B. rewrite worker_ids_length in B.
     pose proof (numToLaunch_le c (pf_decide c)) as T.
     assert (2 ^ 31 < 2 ^ 63) by reflexivity. lia.
-  - destruct (Q ltac:(lia) ltac:(lia)) as (M & _). apply Z.ltb_ge in Do.
+  - destruct (Q ltac:(lia) ltac:(lia)) as (M & _). specialize (Do ltac:(lia)).
     pose proof (antichain_bound _ (worker_ids (pf_numToLaunch c (pf_decide c)) (pf_wait c))
                   (fun a => worker_plan_chain_ids c (pf_decide c) cl a Hok)
                   (fun a b => worker_plan_chain_cmp c (pf_decide c) cl a b Hok) l Hl) as B.
@@ -96,56 +112,25 @@ Proof.
     assert (2 ^ 31 < 2 ^ 63) by reflexivity. lia.
 Qed.
 
-(* maxThreads 0 or 1 => serial: a single invocation on the calling thread (outside the override domain) *)
+(* maxThreads 0 or 1 => serial: a single invocation on the calling thread, for every configuration *)
 Lemma C48_serial_proof : forall c ring cl,
-  user_maxThreads c = 1 -> c48_dom_override c = false ->
+  user_maxThreads c = 1 ->
   pf_plan c ring cl = [] \/ pf_plan c ring cl = [CALL CallerPre 0 0 (pf_s c) (pf_e c)].
 Proof.
-  intros c ring cl U Do. unfold c48_dom_override, is_worker_path in Do.
-  pose proof (pf_decide_par c) as Q. cbv zeta in Q. unfold pf_plan.
+  intros c ring cl U.
+  pose proof (pf_decide_par c) as Q. cbv zeta in Q. pose proof (pf_decide_le c) as Do. unfold pf_plan.
   destruct (d_path (pf_decide c)) eqn:P; simpl in Do, Q.
   - left. reflexivity.
   - right. reflexivity.
-  - destruct (Q ltac:(lia) ltac:(lia)) as (M & Ms). specialize (Ms eq_refl). lia.
-  - destruct (Q ltac:(lia) ltac:(lia)) as (M & _). apply Z.ltb_ge in Do. lia.
-  - destruct (Q ltac:(lia) ltac:(lia)) as (M & _). apply Z.ltb_ge in Do. lia.
+  - destruct (Q ltac:(lia) ltac:(lia)) as (M & _). specialize (Do ltac:(lia)). lia.
+  - destruct (Q ltac:(lia) ltac:(lia)) as (M & _). specialize (Do ltac:(lia)). lia.
+  - destruct (Q ltac:(lia) ltac:(lia)) as (M & _). specialize (Do ltac:(lia)). lia.
 Qed.
 
-(* the override domain is what its name says: only the explicit-chunk / small-range branch of adjustChunkSizing
-   can raise the thread count above the caller's limit *)
-Lemma C48_override_char_proof : forall c,
-  c48_dom_override c = true ->
-  gen_range_isStatic_of (pf_kn c) (pf_chunk c) = false /\ d_path (pf_decide c) = PDynamic /\
-  user_maxThreads c < d_maxThreads (pf_decide c).
-Proof.
-  intros c H. unfold c48_dom_override, is_worker_path in H. apply andb_true_iff in H. destruct H as (Hp & Hm).
-  apply Z.ltb_lt in Hm. apply Z.leb_le in Hp. revert Hp Hm. unfold user_maxThreads, pf_decide.
-  destruct (gen_range_empty_of (pf_kn c) (pf_s c) (pf_e c)); [simpl; lia|].
-  destruct (gen_computeGranularity_of (pf_kn c) (pf_s c) (pf_e c) (pf_chunk c) (pf_gran c)) as [[g te] ht].
-  destruct (gen_range_empty_of (pf_kn c) (pf_s c) te || (pf_N c =? 0)); [simpl; lia|].
-  pose proof (adj_spec (pf_kn c) (pf_s c) te (pf_chunk c) (Z.max (wrap_s 32 (pf_maxThreads c)) 1)
-                (gen_range_isStatic_of (pf_kn c) (pf_chunk c)) (Z.max 1 (pf_minItems c)) (pf_N c) (pf_wait c)) as A.
-  cbv zeta in A.
-  destruct (gen_adjustChunkSizing_of (pf_kn c) (pf_s c) te (pf_chunk c) (Z.max (wrap_s 32 (pf_maxThreads c)) 1)
-              (gen_range_isStatic_of (pf_kn c) (pf_chunk c)) (Z.max 1 (pf_minItems c)) (pf_N c) (pf_wait c)) as [m' st'] eqn:ADJ.
-  simpl in A.
-  destruct (m' <? 2); [simpl; lia|].
-  destruct st'; [simpl; lia|].
-  destruct (pf_chunk c =? 0) eqn:C0; simpl; intros _ Hm.
-  - (* auto chunking never takes the override branch: show m' <= limit *)
-    exfalso. destruct A as [A|(_ & _ & _)]; [lia|].
-    apply Z.eqb_eq in C0. revert ADJ Hm. rewrite C0.
-    destruct (pf_kn c) as [|[|[|[|[|[|[|kn]]]]]]];
-      cbv [gen_adjustChunkSizing_of gen_range_isStatic_of
-           gen_adjustChunkSizing_i8 gen_adjustChunkSizing_u8 gen_adjustChunkSizing_i16 gen_adjustChunkSizing_u16
-           gen_adjustChunkSizing_i32 gen_adjustChunkSizing_u32 gen_adjustChunkSizing_i64 gen_adjustChunkSizing_u64
-           gen_range_isAuto_i8 gen_range_isAuto_u8 gen_range_isAuto_i16 gen_range_isAuto_u16
-           gen_range_isAuto_i32 gen_range_isAuto_u32 gen_range_isAuto_i64 gen_range_isAuto_u64];
-      change (0 =? 0) with true; cbv iota; destr_ifs; intros E Hm; inversion E; subst;
-      try lia;
-      match goal with H : (_ <? _) = true |- _ => apply Z.ltb_lt in H; lia end.
-  - destruct A as [A|(_ & A & _)]; [lia|]. split; [exact A|split; [reflexivity|lia]].
-Qed.
+(* the adjusted thread count never exceeds the caller's limit (the repaired defect) *)
+Lemma C48_limit_respected_proof : forall c,
+  2 <= path_code (d_path (pf_decide c)) -> d_maxThreads (pf_decide c) <= user_maxThreads c.
+Proof. exact pf_decide_le. Qed.
 
 (* ---- for_each ---- *)
 Lemma C48_foreach_proof : forall c l, NoDup l -> incl l (fe_plan c) ->
